@@ -35,6 +35,8 @@ def check(ctx):
     ctx.rule("R04.3", "the link variable is exp(-i A.(r_e1 - r_e0)) in builder and refresh alike", 4)
     ctx.rule("R04.4", "a constant shift of mu multiplies psi' by a global phase and leaves |psi'|^2 unchanged", 2)
     ctx.rule("R04.5", "covariant operators are written only by MeshOperators.__init__/set_link_exponents; the solver passes A_applied (+A_induced)", 3)
+    ctx.rule("R04.7", "the vector potential itself (gauge dependent) reaches the physics only through the link variables and through "
+                      "differences in time: no other use of the applied/total potential or of MeshOperators.link_exponents", 8)
     ctx.rule("R04.6", "the operators acting on psi always carry complex link variables: no caller builds them without "
                       "link variables (a gauge-equivalent non-zero potential would take the complex path)", 3)
     f_set = repo.func(OPS, "MeshOperators.set_link_exponents")
@@ -139,6 +141,7 @@ def check(ctx):
            consequence="the operators are built for a different vector potential than the one recorded")
     from .c10 import link_callers
     link_callers(ctx, "R04.6")
+    potential_uses(ctx)
     fo = repo.func(SOLVER, "TDGLSolver.solve_for_observables")
     src = ast.unparse(fo.node)
     uses = [norm(n) for n in own_nodes(fo.node) if isinstance(n, ast.BinOp) and any(
@@ -149,3 +152,83 @@ def check(ctx):
     ctx.assume("whole-run clause (two runs related by a gauge shift agree to rounding) follows from R04.1-5 and C01's "
                "continuity identity in exact arithmetic only; rounding-level agreement of two runs is declined")
     ctx.decline("re-centring inside uniform_Bz_vector_potential is a gauge choice; its harmlessness is exactly R04.1")
+
+
+def potential_uses(ctx):
+    """R04.7: a who-may-read audit of the gauge-dependent quantities."""
+    from ..cfg import parent_map
+    from .c10 import update_roles
+    repo = ctx.repo
+    # (a) MeshOperators.link_exponents is read by MeshOperators only
+    readers = []
+    for f in repo.all_functions():
+        if f.module.name.startswith("tdgl.test") or f.fq.startswith(f"{OPS}:MeshOperators."):
+            continue
+        for n in own_nodes(f.node):
+            if isinstance(n, ast.Attribute) and n.attr == "link_exponents" and isinstance(n.ctx, ast.Load):
+                readers.append((f, n))
+    for f, n in readers:
+        ctx.ob("R04.7", f"{f.qual} reads link_exponents", False, where=f.fq, construct=f"link_exponents read in {f.qual}", loc=loc(f, n),
+               message=f"{f.qual} reads `{norm(n)}`: the stored vector potential (gauge dependent) is used outside the link-variable code",
+               consequence="a quantity computed from it changes under A -> A + grad chi: observables (or when an iteration stops) depend on the gauge")
+    if not readers:
+        ctx.ob("R04.7", "MeshOperators.link_exponents is read by MeshOperators only", True, where=OPS, construct="readers of link_exponents")
+    # (b) uses of the applied potential in update()
+    fu = repo.func(SOLVER, "TDGLSolver.update")
+    fn = fu.node
+    pm = parent_map(fn)
+    induced, applied = update_roles(fn)
+    # names holding a value of the applied potential: `applied`, and every name bound by plain assignment from one of them,
+    # from self.current_A_applied or from the `applied_vector_potential` parameter
+    pot = {applied}
+    changed = True
+    while changed:
+        changed = False
+        for n in own_nodes(fn):
+            if isinstance(n, ast.Assign) and (
+                    (isinstance(n.value, ast.Name) and (n.value.id in pot or n.value.id == "applied_vector_potential"))
+                    or norm(n.value) == "self.current_A_applied"
+                    or (isinstance(n.value, ast.Call) and norm(n.value.func) == "self.update_applied_vector_potential")):
+                for t in n.targets:
+                    if isinstance(t, ast.Name) and t.id not in pot:
+                        pot.add(t.id)
+                        changed = True
+    pot.add("applied_vector_potential")
+
+    def is_pot(e):
+        return (isinstance(e, ast.Name) and e.id in pot) or norm(e) == "self.current_A_applied"
+    uses = 0
+    for n in own_nodes(fn):
+        if not (isinstance(n, (ast.Name, ast.Attribute)) and isinstance(n.ctx, ast.Load) and is_pot(n)):
+            continue
+        if isinstance(n, ast.Name) and id(n) in pm and isinstance(pm[id(n)][0], ast.Attribute) and norm(pm[id(n)][0]) == "self.current_A_applied":
+            continue
+        par = pm[id(n)][0]
+        uses += 1
+        ok = False
+        why = ""
+        if isinstance(par, ast.Assign) and par.value is n:
+            ok, why = True, "stored / renamed"
+        elif isinstance(par, ast.BinOp) and isinstance(par.op, ast.Sub) and is_pot(par.left) and is_pot(par.right):
+            ok, why = True, "difference of two potentials (dA)"
+        elif isinstance(par, ast.BinOp) and isinstance(par.op, ast.Add) and {norm(par.left), norm(par.right)} & {induced}:
+            g = pm[id(par)][0]
+            ok = isinstance(g, ast.Call) and isinstance(g.func, ast.Attribute) and g.func.attr == "set_link_exponents"
+            why = "applied + induced -> set_link_exponents"
+        elif isinstance(par, ast.Call) and isinstance(par.func, ast.Attribute) and par.func.attr == "set_link_exponents":
+            ok, why = True, "-> set_link_exponents"
+        elif isinstance(par, ast.Call) and isinstance(par.func, ast.Attribute) and par.func.attr in ("array_equal", "array_equiv"):
+            ok, why = True, "exact change test"
+        elif isinstance(par, ast.Call) and isinstance(par.func, ast.Attribute) and par.func.attr == "append" and norm(par.func.value) != "running_state":
+            ok, why = True, "returned as part of the state"
+        elif isinstance(par, ast.Compare) and all(isinstance(c, ast.Constant) and c.value is None for c in par.comparators):
+            ok, why = True, "None test"
+        elif isinstance(par, ast.Assert):
+            ok, why = True, "assert"
+        ctx.ob("R04.7", f"update(): L{n.lineno} `{norm(par)[:70]}` ({why or 'unclassified use'})", ok, where=fu.fq,
+               construct=f"use of the applied vector potential in `{norm(par)[:60]}`", loc=loc(fu, n),
+               message=f"the applied vector potential `{norm(n)}` is used in `{norm(par)[:80]}`, which is neither the link variables, a time "
+                       f"difference, the exact change test nor bookkeeping",
+               consequence="a gauge-dependent number enters the step: observables change under A -> A + grad chi")
+    if uses < 6:
+        raise AnalysisError(f"only {uses} uses of the applied potential found in update()")
